@@ -125,6 +125,29 @@ def feasible(pc, timeout_ms=1500) -> bool:
     return res
 
 
+def definitely_infeasible(pc) -> bool:
+    """True only if pc is unsatisfiable (generous budget; used to discard a path that met an
+    unsupported construct after the quick feasibility query timed out)."""
+    if not pc:
+        return False
+    conj = z3.simplify(z3.And(*pc)) if len(pc) > 1 else z3.simplify(pc[0])
+    if z3.is_false(conj):
+        return True
+    if z3.is_true(conj):
+        return False
+    key = conj.sexpr()
+    if _feas_cache.get(key) is False:
+        return True
+    from .solve import check_sat
+
+    r, _m, _b, _dt, _q = check_sat([conj], z3_ms=10000, cvc5_ms=20000)
+    STATS["feas_queries"] += 1
+    if r == "unsat":
+        _feas_cache[key] = False
+        return True
+    return False
+
+
 # ------------------------------------------------------------------ boxing
 
 
